@@ -27,8 +27,10 @@ def spy(self, a, b=20, *, c=30, **kwargs):
     return "spied"
 
 
-def make_unit():
+def make_unit(fb=None, fn=None):
     def h(b_default: bool, nvirt: int, varkw: bool, pass_a: int, pass_b: int, pass_c: bool, pass_v1: bool, pass_v2: bool, pass_unk: bool, un: int, va: int, vb: int, vc: int, v1: int, v2: int) -> str:
+        if fb is not None:
+            b_default, nvirt = fb, fn
         assume(0 <= nvirt <= 2)
         assume(0 <= pass_a <= 2 and 0 <= pass_b <= 2)  # 0 omitted, 1 positional, 2 keyword
         mb = MethodBuilder("m", spy).with_arg("a", desc="a")
@@ -226,7 +228,9 @@ def obligations(tier):
     obs = []
     T = 300 if tier == "quick" else 900
     warm = [(bd, nv, vk, pa, pb, pc, p1, p2, pu, 0, 1, 2, 3, 4, 5) for bd in (False, True) for nv in (0, 2) for vk in (False, True) for pa in (0, 1, 2) for pb in (0, 2) for pc in (False, True) for p1 in (False, True) for p2 in (False,) for pu in (False, True)]
-    obs.append(Ob("C17.unit.method_builder", make_unit(), warm, "MethodBuilder: parameter b with/without default, 0..2 virtual keywords, virtual **kwargs (symbolic selectors); each of a,b passed positionally / by keyword / omitted, c, v1, v2 and one unadvertised name passed or not (symbolic bits); values symbolic ints", expect={"accepted", "rejected"}, timeout=T * 2))
+    for fb, fn in [(b, n) for b in (False, True) for n in (0, 1, 2)]:
+        obs.append(Ob(f"C17.unit.method_builder.bdefault{int(fb)}.virtual{fn}", make_unit(fb, fn), [w for w in warm if w[0] == fb and w[1] in (fn, 2 if fn == 1 else fn)], f"MethodBuilder: parameter b {'with' if fb else 'without'} default, {fn} virtual keywords, virtual **kwargs symbolic; each of a,b passed positionally / by keyword / omitted, c, v1, v2 and one unadvertised name passed or not (symbolic bits); values symbolic ints", expect={"accepted", "rejected"}, timeout=T * 2))
+    obs = [o for o in obs if o.name != "C17.unit.method_builder"]
     for fam in ("eager",) if tier == "quick" else ("eager", "lazy"):
         for mname in methods_k3(EAGER):
             obs.append(Ob(f"C17.{fam}.K3.{mname}", make_method(fam, mname), [(5, tg, un, unk, w) for tg in (False, True) for un in range(7) for unk in (False, True) for w in range(3)], f"generated method K3.{mname}: advertised nested keywords vs init-enabled attributes of the nested class; single keywords and the pair with symbolic values; unadvertised names from {UNADVERTISED}", expect=set(), timeout=T))
